@@ -5,13 +5,40 @@
 (*   "none" : every tensor is generic (hash values with declared symmetry) *)
 (*   "rspt" : ground-state amplitudes, energies, expectation values from   *)
 (*            determinant-space RSPT (Rspt.tla)                            *)
+(*   "defs" / "rspt+defs" : tensors defined by expressions (DefTable)       *)
 (*   "isr"  : additionally the secular matrix / overlaps over explicitly   *)
 (*            constructed intermediate states (Isr.tla)                    *)
 (***************************************************************************)
 EXTENDS Isr
 
+(* Tensors DEFINED by an expression (property C11: "every intermediate      *)
+(* tensor takes the value of its registered definition").  M.defs is a     *)
+(* sequence of [nid, kd, nu, nl, idx, tgt, x]: x is the definition over its *)
+(* own index table idx, tgt lists the definition's target indices in the   *)
+(* order of the tensor's axes (Obj.idx).  Definitions may only refer to    *)
+(* tensors tabulated before them.                                          *)
+DefTable(d, M) ==
+  LET tg == SeqRange(d.tgt)
+      px == PrepExpr(d.x)
+      keyOf(sig) ==
+        LET vals == [k \in 1..Len(d.tgt) |-> sig[d.tgt[k]]]
+        IN IF d.kd = "M"
+           THEN TabKey("M", SubSeq(vals, d.nl + 1, d.nl + d.nu), SubSeq(vals, 1, d.nl))
+           ELSE TabKey(d.kd, SubSeq(vals, 1, d.nu), SubSeq(vals, d.nu + 1, d.nu + d.nl))
+      sigs == Assignments(d.tgt, d.idx, M)
+      tab == TLCEval([sig \in sigs |-> ValP(px, d.idx, sig, M)])
+  IN TLCEval([key \in {keyOf(sig) : sig \in sigs} |->
+               tab[CHOOSE sig \in sigs : keyOf(sig) = key]])
+
+RECURSIVE WithDefs(_, _)
+WithDefs(M, k) ==
+  IF k > Len(M.defs) THEN M
+  ELSE WithDefs([M EXCEPT !.tabs = PutTab(M.tabs, M.defs[k].nid, DefTable(M.defs[k], M))], k + 1)
+
 Prepare(M) ==
   CASE M.oracle = "rspt" -> RsptModel(M)
     [] M.oracle = "isr" -> IsrModel(M)
+    [] M.oracle = "rspt+defs" -> WithDefs(RsptModel(M), 1)
+    [] M.oracle = "defs" -> WithDefs(M, 1)
     [] OTHER -> M
 =============================================================================
